@@ -190,7 +190,7 @@ class Realiser:
                     i = g.inst("0")
                     self.env[s] = (i[1], i[2])
                 return [self.env[s]]
-            extra = [g.operand() for _ in range(g.pick([0, 0, 1, 2]))]
+            extra = [g.operand() for _ in range(g.pick([0, 0, 1, 2, 4]))]
             return [(self.mnem_for(s), extra)]
         key = next(iter(pat))
         body = pat[key]
@@ -219,7 +219,7 @@ class Realiser:
                 out.append((i[1], i[2]))
             else:
                 ops = [o for p in (body or []) for o in self.operand(p)]
-                ops += [g.operand() for _ in range(g.pick([0, 0, 1]))]
+                ops += [g.operand() for _ in range(g.pick([0, 0, 1, 1, 2, 3, 4]))]
                 out.append((self.mnem_for(key), ops))
         return out
 
